@@ -233,23 +233,26 @@ theorem WF_step (pol : Policy) (cfg : Cfg) (reqs : List ReqSpec) (g : G) (st : S
     · rename_i r hr
       split
       · exact ⟨hc, hq⟩
-      · constructor
-        · intro b
-          dsimp only
-          rw [inflight_setRq g.rqs k r _ hr b]
-          have := frame_fin g.conn r.tb b
-          rw [← hc b]
-          simp only [ind] at this ⊢
-          simp at this ⊢
-          omega
-        · intro r' hr' hcond
-          dsimp only at hr'
-          rcases mem_setRq _ _ _ _ hr' with h' | h'
-          · subst h'; rfl
-          · exact hq r' h' hcond
+      · split
+        · exact ⟨hc, hq⟩
+        · constructor
+          · intro b
+            dsimp only
+            rw [inflight_setRq g.rqs k r _ hr b]
+            have := frame_fin g.conn r.tb b
+            rw [← hc b]
+            simp only [ind] at this ⊢
+            simp at this ⊢
+            omega
+          · intro r' hr' hcond
+            dsimp only at hr'
+            rcases mem_setRq _ _ _ _ hr' with h' | h'
+            · subst h'; rfl
+            · exact hq r' h' hcond
     · exact ⟨hc, hq⟩
   | up b => exact ⟨hc, hq⟩
   | down b => exact ⟨hc, hq⟩
+  | remove b => exact ⟨hc, hq⟩
 
 theorem WF_run (pol : Policy) (cfg : Cfg) (reqs : List ReqSpec) (sched : List Step) :
     ∀ (g : G) (chs : List (List Nat)), WF g → WF (runSched pol cfg reqs g sched chs) := by
@@ -358,6 +361,7 @@ theorem PWF_step (dial : Nat → Bool) (rm : Nat) (scripts : List (List Pick)) (
     · exact ⟨hc, hq⟩
   | up b => exact ⟨hc, hq⟩
   | down b => exact ⟨hc, hq⟩
+  | remove b => exact ⟨hc, hq⟩
 
 open Px in
 theorem PWF_run (dial : Nat → Bool) (rm : Nat) (scripts : List (List Pick)) (sched : List Step) :
